@@ -530,3 +530,9 @@ Theorem model_is_code_rs_iso_to_ymd : forall y w d, 1 <= y <= 100000 -> 0 <= w <
   gen_rsp_iso_to_ymd y w d = rs_iso_to_ymd y w d.
 Proof. exact gen_rsp_iso_to_ymd_eq. Qed.
 Print Assumptions model_is_code_rs_iso_to_ymd.
+
+(* Parser::parse_integer(length, field_name): exactly `length` ASCII digits read from the remaining input (Model/IsoParse.cur / inc / isend are the parser
+   state's primitives), value accumulated in u32; equal to the hand model's rs_parse_int for every input and every length up to 9 (the parser uses 1, 2, 4) *)
+Theorem model_is_code_rs_parse_integer : forall s len, 0 <= len <= 9 -> gen_rsp_parse_integer s len = rs_parse_int (Z.to_nat len) s 0.
+Proof. exact gen_rsp_parse_integer_eq. Qed.
+Print Assumptions model_is_code_rs_parse_integer.
